@@ -373,23 +373,33 @@ def load_findings():
 
 
 def match_finding(prop, verdict, case, findings):
-    """A verdict is covered by an OPEN finding iff the finding's signature matches this instance."""
-    for f in findings:
-        if f.get("status") != "open" or f.get("property") != prop:
-            continue
+    """A verdict is covered by an OPEN finding iff the finding's signature matches this instance.
+    Signatures: `cause` = a cause name of spec/Compile.tla: the verdict carries the set of causes the
+    specification predicts for this very input ("[predicted=[..]]"); it is covered only if that set is non-empty
+    and EVERY predicted cause is an open finding (returns the first). `msg_regex` / `family_regex`: regular
+    expressions over the verdict text / case family."""
+    open_f = [f for f in findings if f.get("status") == "open" and f.get("property") == prop]
+    msg = verdict.get("msg", "")
+    m = re.search(r"\[predicted=(\[[^\]]*\])\]", msg)
+    if m:
+        try:
+            pred = json.loads(m.group(1))
+        except Exception:
+            pred = []
+        causes = {f["signature"]["cause"]: f for f in open_f if "cause" in f.get("signature", {})}
+        if pred and all(c in causes for c in pred):
+            return causes[pred[0]]
+        if pred or any("cause" in f.get("signature", {}) for f in open_f):
+            # predicted-cause verdicts are only ever matched by cause
+            open_f = [f for f in open_f if "cause" not in f.get("signature", {})]
+    for f in open_f:
         sig = f.get("signature", {})
-        ok = True
-        if "msg_regex" in sig and not re.search(sig["msg_regex"], verdict.get("msg", "")):
+        if "cause" in sig:
+            continue
+        ok = bool(sig)
+        if "msg_regex" in sig and not re.search(sig["msg_regex"], msg):
             ok = False
         if "family_regex" in sig and not re.search(sig["family_regex"], verdict.get("family", "")):
-            ok = False
-        if "case_pred" in sig and case is not None:
-            try:
-                if not eval(sig["case_pred"], {"re": re, "json": json}, {"case": case, "verdict": verdict}):
-                    ok = False
-            except Exception:
-                ok = False
-        elif "case_pred" in sig and case is None:
             ok = False
         if ok:
             return f
